@@ -89,6 +89,22 @@ func c07GenText(seed, size int) []byte {
 }
 
 func c07Content(desc string) []byte {
+	if strings.HasPrefix(desc, "b:") || strings.HasPrefix(desc, "c:") || strings.HasPrefix(desc, "h:") {
+		// the generated text of that seed and size with a head a file reader might treat specially (a UTF-8 byte order
+		// mark, a CR LF) written over its first bytes, or with bytes >= 0x80 (UTF-8 and Latin-1) written into it
+		b := c07Content("t" + desc[1:])
+		switch desc[0] {
+		case 'b':
+			copy(b, "\xef\xbb\xbf")
+		case 'c':
+			copy(b, "\r\n")
+		default:
+			for i := 5; i+2 < len(b); i += 97 {
+				copy(b[i:], []string{"\xc3\xa9", "\xe9", "\xe2\x82\xac", "\xff"}[(i/97)%4])
+			}
+		}
+		return b
+	}
 	if strings.HasPrefix(desc, "g:") || strings.HasPrefix(desc, "t:") || strings.HasPrefix(desc, "u:") {
 		p := strings.Split(desc, ":")
 		seed, _ := strconv.Atoi(p[1])
@@ -676,9 +692,17 @@ func init() {
 						continue
 					}
 					kind := "t"
-					if r.Intn(3) == 0 {
+					switch r.Intn(8) {
+					case 0, 1:
 						kind = "u"
+					case 2:
+						kind = "b"
+					case 3:
+						kind = "c"
+					case 4:
+						kind = "h"
 					}
+					st.Counts["engine-content-kind-"+kind]++
 					fl := []string{hx(src), fmt.Sprintf("%s:%d:%d", kind, r.Intn(100000), n)}
 					if r.Intn(5) == 0 {
 						fl = append(fl, "twice")
